@@ -10,16 +10,21 @@
      prepare(c)   NonrevPrepareCache           update(c)   the issuer revokes somebody, Witness.Update
      prove(c)     disclosure proof without / provenr(c) with non-revocation part
      list(c)      one session over both credentials (first with non-revocation part)
-     issue        an issuance commitment (CommitToSecretAndProve) *)
+     issue        an issuance commitment (CommitToSecretAndProve) of a new CredentialBuilder
+     reissue      the SAME builder commits again for another nonce (the request is repeated after a timeout). The randomisers of
+                  v' and of the user's shares of random-blind attributes live as long as the builder (drawn in NewCredentialBuilder:
+                  `brand`, observation O1 - the commitment U is the same anyway); the randomiser of the SECRET KEY is drawn per call
+                  and must be fresh, or the issuer extracts the secret key from the two commitments *)
 EXTENDS Integers, Sequences, FiniteSets, TLC
 CONSTANTS MaxOps
 Creds == {1, 2}
 VARIABLES next,     \* next fresh randomiser identifier
           cache,    \* [Creds -> identifier set of the cached builder, {} = empty]
           proofs,   \* sequence of [rand : set of identifiers, nb : identifiers of the consumed nonrev builder]
-          ops
-vars == <<next, cache, proofs, ops>>
-Init == next = 1 /\ cache = [c \in Creds |-> {}] /\ proofs = <<>> /\ ops = <<>>
+          ops,
+          lastb     \* builder-lifetime randomisers of the latest CredentialBuilder ({}: none yet)
+vars == <<next, cache, proofs, ops, lastb>>
+Init == next = 1 /\ cache = [c \in Creds |-> {}] /\ proofs = <<>> /\ ops = <<>> /\ lastb = {}
 Fresh(k) == next..(next + k - 1)
 Room == Len(ops) < MaxOps
 Log(o, c) == ops' = Append(ops, [op |-> o, cred |-> c])
@@ -27,25 +32,29 @@ Log(o, c) == ops' = Append(ops, [op |-> o, cred |-> c])
 Prepare(c) == /\ Room /\ Log("prepare", c)
               /\ IF cache[c] = {} THEN cache' = [cache EXCEPT ![c] = Fresh(2)] /\ next' = next + 2
                                   ELSE UNCHANGED <<cache, next>>              \* refreshed in place, same randomisers
-              /\ UNCHANGED proofs
-Update(c) == Room /\ Log("update", c) /\ UNCHANGED <<next, cache, proofs>>
+              /\ UNCHANGED <<proofs, lastb>>
+Update(c) == Room /\ Log("update", c) /\ UNCHANGED <<next, cache, proofs, lastb>>
 Prove(c) == /\ Room /\ Log("prove", c)
-            /\ proofs' = Append(proofs, [rand |-> Fresh(4), nb |-> {}]) /\ next' = next + 4 /\ UNCHANGED cache
+            /\ proofs' = Append(proofs, [rand |-> Fresh(4), nb |-> {}]) /\ next' = next + 4 /\ UNCHANGED <<cache, lastb>>
 ProveNr(c) == /\ Room /\ Log("provenr", c)
               /\ IF cache[c] # {}
                    THEN /\ proofs' = Append(proofs, [rand |-> Fresh(4) \cup cache[c], nb |-> cache[c]])
                         /\ next' = next + 4 /\ cache' = [cache EXCEPT ![c] = {}]
                    ELSE /\ proofs' = Append(proofs, [rand |-> Fresh(6), nb |-> (next + 4)..(next + 5)])
                         /\ next' = next + 6 /\ UNCHANGED cache
+              /\ UNCHANGED lastb
 List(c) == /\ Room /\ Log("list", c)
            /\ LET nb == IF cache[c] # {} THEN cache[c] ELSE (next + 7)..(next + 8)
                   used == IF cache[c] # {} THEN 7 ELSE 9
               IN /\ proofs' = proofs \o << [rand |-> (next..(next + 3)) \cup nb, nb |-> nb],
                                            [rand |-> (next + 4)..(next + 6), nb |-> {}] >>
                  /\ next' = next + used
-           /\ cache' = [cache EXCEPT ![c] = {}]
-Issue == Room /\ Log("issue", 0) /\ proofs' = Append(proofs, [rand |-> Fresh(3), nb |-> {}]) /\ next' = next + 3 /\ UNCHANGED cache
-Next == Issue \/ \E c \in Creds : Prepare(c) \/ Update(c) \/ Prove(c) \/ ProveNr(c) \/ List(c)
+           /\ cache' = [cache EXCEPT ![c] = {}] /\ UNCHANGED lastb
+Issue == /\ Room /\ Log("issue", 0) /\ proofs' = Append(proofs, [rand |-> {next}, nb |-> {}]) /\ lastb' = (next + 1)..(next + 2)
+         /\ next' = next + 3 /\ UNCHANGED cache
+Reissue == /\ Room /\ lastb # {} /\ Log("reissue", 0)
+           /\ proofs' = Append(proofs, [rand |-> {next}, nb |-> {}]) /\ next' = next + 1 /\ UNCHANGED <<cache, lastb>>
+Next == Issue \/ Reissue \/ \E c \in Creds : Prepare(c) \/ Update(c) \/ Prove(c) \/ ProveNr(c) \/ List(c)
 Spec == Init /\ [][Next]_vars
 
 \* C07
